@@ -54,6 +54,8 @@ pub fn run(o: &Opts) {
     // configured language globs (half of the projects): a new extension, a bare file name, and globs that RE-ASSIGN an
     // extension a builtin language claims (the configured language then is the file's language)
     let mut lang_globs: Vec<(usize, &str)> = vec![];
+    let mut builtin_lang: BTreeMap<String, Option<usize>> = BTreeMap::new();
+    let mut glob_lang: BTreeMap<String, usize> = BTreeMap::new();
     if pi % 2 == 1 {
       let pool: [(usize, &str); 6] = [(3, "*.pyx"), (2, "*.ts"), (0, "*.mts"), (1, "*.jsx"), (0, "noext"), (1, "*.tsx")];
       for _ in 0..(1 + rng.below(3)) {
@@ -73,6 +75,7 @@ pub fn run(o: &Opts) {
       }
       std::fs::write(dir.join("sgconfig.yml"), cfg).unwrap();
       for (f, lang) in files.iter_mut() {
+        builtin_lang.insert(f.clone(), *lang);
         let base = f.rsplit('/').next().unwrap();
         for (li, g) in &lang_globs {
           let hit = if let Some(ext) = g.strip_prefix("*.") { base.ends_with(&format!(".{ext}")) } else { base == *g };
@@ -81,6 +84,7 @@ pub fn run(o: &Opts) {
               out.count("language-globs:file-reassigned");
             }
             *lang = Some(*li);
+            glob_lang.insert(f.clone(), *li);
           }
         }
       }
@@ -211,7 +215,7 @@ pub fn run(o: &Opts) {
       let wire_args = vl![optids(&flags[0]), optids(&flags[1]), optids(&flags[2]), optids(&flags[3]), optids(&flags[4]), optids(&filt_ids)];
       let wire_rules = Val::L(rules.iter().map(|rl| vl![Val::str_bytes(&rl.id), Val::n(rl.lang), Val::n(rl.sev),
         Val::opt(rl.files.as_ref().map(|g| Val::L(g.iter().map(gid).collect()))), Val::opt(rl.ignores.as_ref().map(|g| Val::L(g.iter().map(gid).collect())))]).collect());
-      let wire_files = Val::L(files.iter().map(|(f, l)| vl![Val::opt(l.map(Val::n)), Val::L(all_globs.iter().enumerate().filter(|(_, g)| gmatch(&vec![(*g).clone()], f)).map(|(i, _)| Val::n(i)).collect())]).collect());
+      let wire_files = Val::L(files.iter().map(|(f, l)| vl![Val::opt(builtin_lang.get(f).copied().unwrap_or(*l).map(Val::n)), Val::L(all_globs.iter().enumerate().filter(|(_, g)| gmatch(&vec![(*g).clone()], f)).map(|(i, _)| Val::n(i)).collect()), Val::opt(glob_lang.get(f).map(|l| Val::n(*l)))]).collect());
       // observed: per file, the applied rule ids sorted, with the severity the record carries
       let mut per: BTreeMap<String, BTreeSet<(String, usize)>> = BTreeMap::new();
       for x in &recs {
